@@ -105,17 +105,27 @@ Section ServeHlsSpec.
   Variable lower_uni : bytes -> bytes.
   Variable parse_query_all : bytes -> list (bytes * bytes).
 
-  (* the history with the address each request came from *)
-  Fixpoint sh_run_tagged (cfg : sa_config) (sub_on : bool) (root : bytes) (st : hls_state) (now : Z) (ops : list sh_op)
-    : list (bytes * hls_resp) :=
+  (* the history with the operation each answer belongs to *)
+  Fixpoint sh_trace (cfg : sa_config) (sub_on : bool) (root : bytes) (timeout_ms phase : Z)
+    (st : hls_state) (now_ms : Z) (ops : list sh_op) : list (sh_op * hls_resp) :=
     match ops with
     | [] => []
-    | ShGet ip path query :: r =>
-        let '(st', resp) := serve_hls md5raw parse_query lower_uni parse_query_all cfg sub_on root st now ip path query in
-        (ip, resp) :: sh_run_tagged cfg sub_on root st' now r
-    | ShBlacklist ip dur :: r =>
-        sh_run_tagged cfg sub_on root (mk_hls_state (bl_add (hs_bl st) ip dur now) (hs_sessions st) (hs_next st)) now r
-    | ShSleep s :: r => sh_run_tagged cfg sub_on root st (now + s)%Z r
+    | o :: r =>
+        let '(st', t, resp) := sh_step md5raw parse_query lower_uni parse_query_all cfg sub_on root timeout_ms phase st now_ms o in
+        match resp with
+        | Some x => (o, x) :: sh_trace cfg sub_on root timeout_ms phase st' t r
+        | None => sh_trace cfg sub_on root timeout_ms phase st' t r
+        end
+    end.
+
+  (* state and clock after a history *)
+  Fixpoint sh_exec (cfg : sa_config) (sub_on : bool) (root : bytes) (timeout_ms phase : Z)
+    (st : hls_state) (now_ms : Z) (ops : list sh_op) : hls_state * Z :=
+    match ops with
+    | [] => (st, now_ms)
+    | o :: r =>
+        let '(st', t, _) := sh_step md5raw parse_query lower_uni parse_query_all cfg sub_on root timeout_ms phase st now_ms o in
+        sh_exec cfg sub_on root timeout_ms phase st' t r
     end.
 End ServeHlsSpec.
 
@@ -129,8 +139,8 @@ Fixpoint sh_total_sleep (ops : list sh_op) : Z :=
 Definition sh_op_ok (ip : bytes) (o : sh_op) : Prop :=
   match o with
   | ShBlacklist k _ => k <> ip
-  | ShGet _ _ _ => True
   | ShSleep s => (0 <= s)%Z
+  | _ => True
   end.
 
 (* "HLS content" = the handler opened a file; a black-listed address is not even given a session *)
@@ -138,3 +148,7 @@ Definition no_content (r : hls_resp) : Prop := (forall p, r <> HrFile p) /\ (for
 
 (* the request got past simple auth and the black-list, i.e. hls.ServerHandler saw it *)
 Definition reaches_handler (r : hls_resp) : Prop := r <> HrAuthFail /\ r <> HrBlocked.
+
+(* the answers to the requests of address ip / to the requests that carry session id sid *)
+Definition from_ip (ip : bytes) (P : hls_resp -> Prop) (e : sh_op * hls_resp) : Prop :=
+  match fst e with ShGet k _ _ => k = ip -> P (snd e) | _ => True end.
